@@ -224,6 +224,20 @@ func runUnit(res *common.Result) {
 		}
 	case "shared-inner-orders": // two stages of one pipeline include the SAME pipeline object
 		sharedInner(func(c Cfg) bool { return each(c, 0, true, *pruneFlag) })
+	case "shared-inner-small-b1": // two independent stages including ONE one-stage pipeline object, every schedule within bound 1
+		res.Bound = 1
+		for _, o := range []int{0, 1, 2, 3, 4} {
+			for _, allow := range []bool{false, true} {
+				ig1 := mkGraph([][]int{{}}, []int{o}, []string{"x"})
+				ig2 := mkGraph([][]int{{}}, []int{o}, []string{"x"})
+				g := mkGraph([][]int{{}, {}}, []int{0, 0}, names)
+				g.Stages[0].Inner, g.Stages[1].Inner = &ig1, &ig2
+				g.Stages[0].Allow, g.Stages[1].Allow = allow, allow
+				if each(Cfg{G: g, SharedInner: true}, 1, false, *pruneFlag) {
+					return
+				}
+			}
+		}
 	case "shared-inner-b1":
 		res.Bound = 1
 		sharedInner(func(c Cfg) bool { return each(c, 1, false, *pruneFlag) })
